@@ -1,17 +1,17 @@
-\* deviations on = FloatCondNotFolded   (template: harness/props/c04.notes.md)
+\* deviations on = BareAddressMinusRejected   (template: harness/props/c04.notes.md)
 SPECIFICATION Spec
 CONSTANTS
   Real = FALSE
   CharSigned = TRUE
-  Families = {"condfew"}
+  Families = {"addr"}
   Level = 1
   Dev_LogicalReturnsOperand = FALSE
   Dev_BoolCastTruncates = FALSE
   Dev_FloatToUnsignedRejectsNeg = FALSE
-  Dev_FloatCondNotFolded = TRUE
+  Dev_FloatCondNotFolded = FALSE
   Dev_UnevaluatedOperandFolded = FALSE
   Dev_NoDivisionGuard = FALSE
   Dev_CondSameTypeNoPromotion = FALSE
-  Dev_BareAddressMinusRejected = FALSE
+  Dev_BareAddressMinusRejected = TRUE
 INVARIANTS Inv_Refines
 CHECK_DEADLOCK FALSE
